@@ -35,6 +35,7 @@ func c11Open(srv *Server, id string, onFirstFlush func()) *c11Stream {
 	go func() {
 		req := verifRequest("GET", "/mcp", nil, "Accept", "text/event-stream", "Mcp-Session-Id", id)
 		srv.httpHandler.ServeHTTP(st.rec, req.WithContext(ctx))
+		st.rec.finished = true // what net/http does next: finish the response, unsynchronised
 		close(st.done)
 	}()
 	return st
